@@ -221,6 +221,25 @@ pub fn run_c05(a: &Args, rep: &mut Report) {
             rep.violation(&format!("C05:verifier-hole:{what}"), format!("a verifier-accepted program performs an illegal action at pc {pc}: {what} (interpreter: {})", ir.ran.short()), w());
         }
     }
+    // "For every byte string the default verifier accepts": the verdict on a byte string must not
+    // depend on what other threads are verifying at the same moment. Soup strings plus long programs
+    // whose only defect is the last instruction, verified by 8 threads at once (scattered and in
+    // lockstep on the same bytes); an acceptance that appears only under concurrency is the hole.
+    if !cfg!(miri) {
+        let mut items: Vec<Vec<u8>> = (0..3000).map(|_| genp::gen_soup(&mut rng)).collect();
+        for k in 0..12usize {
+            let n = 15_000 + 2_500 * k;
+            let mut p: Vec<u8> = Vec::with_capacity(8 * (n + 1));
+            for j in 0..n {
+                p.extend_from_slice(&Insn::new(MOV64_IMM, (j % 10) as u8, 0, 0, (j as i32) ^ (k as i32) ^ 0x55).bytes());
+            }
+            p.extend_from_slice(&(if k % 2 == 0 { Insn::new(MOV64_IMM, 11, 0, 0, 0) } else { Insn::new(EXIT, 0, 0, 0, 0) }).bytes());
+            let at = (k * 257) % (items.len() + 1);
+            items.insert(at, p);
+        }
+        let (execs, bad) = crate::mon_par::par_same(&items, |p| sys::catch(|| accepted(Kind::Raw, p)).map_err(|m| sys::panic_site(&m)), if q { 2 } else { 6 });
+        crate::mon_par::report_par(rep, "C05", "verifier-verdict", execs, bad, |i| json!({"prog": hex(&items[i][..items[i].len().min(512)]), "len": items[i].len()}));
+    }
 }
 
 // ------------------------------------------------------------------------------------------------
@@ -231,6 +250,7 @@ pub fn run_c12(a: &Args, rep: &mut Report) {
     let nostd = !cfg!(any(feature = "std", feature = "stdlite"));
     let n = ((if q { 240_000.0 } else { 12_000_000.0 }) * a.scale) as u64 / a.nshards;
     let mut cases: Vec<(Case, &'static str)> = Vec::new();
+    let mut par_cases: Vec<Case> = Vec::new();
     let mut k = 0u64;
     let mut tries = 0u64;
     let flush = |rep: &mut Report, cases: &mut Vec<(Case, &'static str)>| {
@@ -251,6 +271,9 @@ pub fn run_c12(a: &Args, rep: &mut Report) {
         };
         let Some((c, origin)) = c else { continue };
         k += 1;
+        if par_cases.len() < 400 && k % 3 == 0 {
+            par_cases.push(c.clone());
+        }
         cases.push((c, origin));
         if cases.len() >= 256 {
             flush(rep, &mut cases);
@@ -375,6 +398,9 @@ pub fn run_c12(a: &Args, rep: &mut Report) {
                         c.helpers = vec![(1, 0)];
                     }
                     nd += 1;
+                    if n >= 120 && n <= 1000 && nd % 5 == 0 && par_cases.len() < 900 {
+                        par_cases.push(c.clone());
+                    }
                     cases.push((c, "opcode-dense"));
                     if cases.len() >= 64 {
                         flush(rep, &mut cases);
@@ -399,6 +425,56 @@ pub fn run_c12(a: &Args, rep: &mut Report) {
         }
     }
     flush(rep, &mut cases);
+    // programs of mixed sizes (native code from a few bytes to several pages) compiled and dropped
+    // by 8 threads at once, each on its own VM: same Ok/Err as alone, no panic, no crash
+    if !cfg!(miri) && !par_cases.is_empty() {
+        let ends = sys::run_batch(1, 600, 600, |_i, out| {
+            let f = |c: &Case| -> (u8, u8) {
+                let one = |cl: bool| -> u8 {
+                    let r = sys::catch(|| -> Result<(), String> {
+                        let mut vm = build_vm(c, Family::Plain)?;
+                        if cl {
+                            #[cfg(feature = "std")]
+                            vm.cl_compile()?;
+                        } else {
+                            #[cfg(not(any(feature = "std", feature = "stdlite")))]
+                            {
+                                let need = (c.prog.len() / 8 * 64 + 8192 + 4095) & !4095;
+                                let _ = vm.set_jit_exec_memory(crate::exec::exec_memory(need));
+                            }
+                            vm.jit_compile()?;
+                        }
+                        Ok(())
+                    });
+                    match r {
+                        Ok(Ok(())) => 0,
+                        Ok(Err(_)) => 1,
+                        Err(_) => 2,
+                    }
+                };
+                (one(false), if cfg!(feature = "std") && c.prog.len() <= 8 * 2000 { one(true) } else { 9 })
+            };
+            let (execs, bad) = crate::mon_par::par_same(&par_cases, f, 2);
+            out.extend_from_slice(&execs.to_le_bytes());
+            for (i, d) in bad.iter().take(5) {
+                out.extend_from_slice(format!("program #{i} ({} instructions, {}): {} [0 = Ok, 1 = Err, 2 = panic; (jit, cranelift)]\n", par_cases[*i].prog.len() / 8, par_cases[*i].class, d).as_bytes());
+            }
+        });
+        rep.set("concurrent_workloads", "compile");
+        match &ends[0] {
+            CaseEnd::Done(b) if b.len() >= 8 => {
+                rep.add("concurrent_evaluations", u64::from_le_bytes(b[0..8].try_into().unwrap()));
+                let msg = String::from_utf8_lossy(&b[8..]).to_string();
+                if let Some(first) = msg.lines().next() {
+                    rep.violation("C12:concurrent:compile-differs-from-sequential", format!("8 threads compiling, each its own VM: {first}"), json!({"kind": "concurrent-session", "what": "compile", "deviations": msg.lines().take(5).collect::<Vec<_>>()}));
+                }
+            }
+            CaseEnd::Died(sg, _) => rep.violation(&format!("C12:concurrent:signal-{}", sys::signame(*sg)), format!("8 threads compiling verified programs: killed by {}", sys::signame(*sg)), json!({"kind": "concurrent-session", "what": "compile"})),
+            CaseEnd::Done(_) => rep.inconclusive("concurrent compile: short record".into()),
+            CaseEnd::CpuTimeout => rep.inconclusive("concurrent compile: cpu limit".into()),
+            CaseEnd::Inconclusive(x) => rep.inconclusive(format!("concurrent compile: {x}")),
+        }
+    }
 }
 
 fn check_batch_c12(rep: &mut Report, cases: &[(Case, &'static str)], nostd: bool) {
